@@ -1114,6 +1114,11 @@ def impl(case):
             return "outside:" + str((r["file"] or {}).get("outside"))
         return json.dumps(canon_file(r["file"]), sort_keys=True, default=str)
     # read
+    if _dangling_reference(case.line):
+        # a `bounds` / `climatology` attribute that names no variable of the file (a property called like a
+        # reference attribute ends up there): a structurally non-compliant dataset is property C13's subject
+        # and the reader's handling of it is in C13's model, not in this one; the oracle still judges the case
+        return "outside:dangling-reference"
     if r["read_exc"] is not None:
         return "raised:" + fw.exc_enum(r["read_exc"])
     out = []
@@ -1125,6 +1130,16 @@ def impl(case):
         except Outside as e:
             return "outside:" + str(e)
     return json.dumps(out, sort_keys=True, default=str)
+
+
+def _dangling_reference(line):
+    try:
+        body = line.split(" V=[", 1)[1].split("] ", 1)[0]
+    except Exception:
+        return False
+    ents = [e.split(";") for e in body.split(",")]
+    names = {e[0] for e in ents}
+    return any(len(e) > 6 and ((e[5] != "_" and e[5] not in names) or (e[6] != "_" and e[6] not in names)) for e in ents)
 
 
 def agree(case):
